@@ -137,6 +137,14 @@ theorem latest_spec (g : Graph) (cands : List Nat) (hn : cands.Nodup) (count : N
   · simp [Desc]
   · exact desc_sortDedupDesc _
 
+/-- `Reachable` arm: the closure computes the members of the domain connected, inside the
+domain, to a source that lies in the domain -/
+theorem reachable_spec (g : Graph) (srcs dom : List Nat) (hd : Desc dom) :
+    Desc (reachableIn g srcs dom) ∧
+      ∀ p, p ∈ reachableIn g srcs dom ↔
+        p ∈ dom ∧ ∃ x, x ∈ srcs ∧ x ∈ dom ∧ Conn g (· ∈ dom) x p :=
+  ⟨hd.sublist (reachableIn_sublist g srcs dom), mem_reachableIn g srcs dom⟩
+
 /-! ## the engine against the plan semantics, the plan against the expression semantics -/
 
 /-- every covered `ResolvedExpression` evaluates to the strictly descending list of the
@@ -326,7 +334,7 @@ theorem okEH_wf (g : Graph) : ∀ (e : Expr), OkEH g e → e.WF g := by
   | inter r h ihr ihh => intro hok; exact ⟨ihr hok.1, ihh hok.2⟩
   | diff r h ihr ihh => intro hok; exact ⟨ihr hok.1, ihh hok.2⟩
   | headsRange r h fp f ihr ihh ihf => intro hok; exact ⟨ihr hok.1, ihh hok.2.1, ihf hok.2.2⟩
-  | reachable s d _ _ => intro hok; exact absurd hok (by simp [OkEH])
+  | reachable s d ihs ihd => intro hok; exact ⟨ihs hok.1, ihd hok.2⟩
   | none => intro _; trivial
   | all => intro _; trivial
   | visibleHeads => intro _; trivial
@@ -344,7 +352,7 @@ theorem heads_range_spec (g : Graph) (hw : g.WF) (fp : Bool) (filter : Nat → B
           filter c = true) p :=
   ⟨desc_headsRangeArm g hw fp filter roots _, mem_headsRangeArm g hw fp filter roots H hH hr hdH hdr⟩
 
-/-- `eval_sound` for every modelled expression except `reachable` (now including the
+/-- `eval_sound` for every modelled expression (including `reachable` and the
 optimizer-internal `HeadsRange` with its predicate filter), for an arbitrary list of referenced
 commits that covers the literals of the expression; needs a rooted graph because a `HeadsRange`
 filter `all()`/`~x` is only equivalent to its predicate form on visible commits. -/
@@ -363,8 +371,8 @@ theorem eval_sound_full (g : Graph) (hw : g.WF) (hr : Rooted g) (e : Expr) (hok 
   eval_sound_full_refs g hw hr (refsOf e) (wf_refsOf_lt g e (okEH_wf g e hok)) e hok
     (fun x hx => by simp [hx])
 
-/-- **Optimized = unoptimized**, unconditionally on the full grammar: for every rooted
-well-formed graph and every modelled expression without `reachable`, `evaluate` (optimize, then
+/-- **Optimized = unoptimized**, unconditionally: for every rooted well-formed graph and every
+modelled expression with in-range commit literals, `evaluate` (optimize, then
 resolve and run the engine) and `evaluate_unoptimized` return the same list. -/
 theorem optimized_eq_unoptimized_full (g : Graph) (hw : g.WF) (hr : Rooted g) (e : Expr)
     (hok : OkEH g e) : evalTopOpt g e = evalTop g e := by
